@@ -1,0 +1,14 @@
+//go:build verif
+
+// Contracts for the deductive verifier in /verif (gvc). This file contains comments only:
+// it adds no code to the package, with or without the "verif" build tag.
+
+package migrate
+
+//@ import "context"
+//@ import "net/url"
+//@ import "ariga.io/atlas/sql/migrate"
+
+//@ func DirURL(ctx context.Context, u *url.URL, create bool) (d migrate.Dir, err error)
+//@   trusted
+//@   ensures err == nil ==> d != nil
